@@ -441,10 +441,10 @@ class Execution:
         first = targets[:1]
         rules = ["r%d" % s["id"] for s in sc["stmts"] if not s["phony"]][:1]
         runs = [("commands", targets), ("commands1", first), ("inputs", targets), ("multi-inputs", targets), ("query", first),
-                ("targets-all", []), ("targets-depth", []), ("targets-rule", rules), ("rules", []), ("rules-d", []), ("graph", targets),
+                ("targets-all", []), ("targets-depth", []), ("targets-depth0", []), ("targets-rule", rules), ("rules", []), ("rules-d", []), ("graph", targets),
                 ("compdb", []), ("compdb-rule", rules), ("compdb-targets", targets), ("deps", []), ("deps-target", first), ("missingdeps", [])]
         argv = {"commands": ["-t", "commands"], "commands1": ["-t", "commands", "-s"], "inputs": ["-t", "inputs"], "multi-inputs": ["-t", "multi-inputs"],
-                "query": ["-t", "query"], "targets-all": ["-t", "targets", "all"], "targets-depth": ["-t", "targets", "depth", "2"],
+                "query": ["-t", "query"], "targets-all": ["-t", "targets", "all"], "targets-depth": ["-t", "targets", "depth", "2"], "targets-depth0": ["-t", "targets", "depth", "0"],
                 "targets-rule": ["-t", "targets", "rule"], "rules": ["-t", "rules"], "rules-d": ["-t", "rules", "-d"], "graph": ["-t", "graph"],
                 "compdb": ["-t", "compdb"], "compdb-rule": ["-t", "compdb"], "compdb-targets": ["-t", "compdb-targets"], "deps": ["-t", "deps"],
                 "deps-target": ["-t", "deps"], "missingdeps": ["-t", "missingdeps"]}
@@ -466,8 +466,13 @@ class Execution:
                 pre = self.tree()
                 lpre = self._log_bytes()
                 try:
-                    pr = subprocess.run([self.ninja] + argv[name] + args, cwd=self.d, env=env, stdin=subprocess.DEVNULL, capture_output=True, timeout=60)
-                    rc, out = pr.returncode, pr.stdout
+                    if name == "targets-depth0":
+                        # unlimited depth: only termination is of interest (a tool that does not end would print without end)
+                        pr = subprocess.run([self.ninja] + argv[name] + args, cwd=self.d, env=env, stdin=subprocess.DEVNULL, stdout=subprocess.DEVNULL, stderr=subprocess.DEVNULL, timeout=10)
+                        rc, out = pr.returncode, b""
+                    else:
+                        pr = subprocess.run([self.ninja] + argv[name] + args, cwd=self.d, env=env, stdin=subprocess.DEVNULL, capture_output=True, timeout=60)
+                        rc, out = pr.returncode, pr.stdout
                 except subprocess.TimeoutExpired as e:
                     rc, out = -1, (e.stdout or b"")
                 started = False
